@@ -1,3 +1,102 @@
-"""placeholder"""
+"""core::fmt: a Formatter is a list of output pieces; write!/format_args! templates of this toolchain are decoded.
+
+pieces:  ('ch', code point expr) | ('str', python str) | ('int', z3/py integer, type name)
+The Arguments template byte-code of this nightly (printed in the MIR as a byte-string constant): a byte n < 0x80 starts a
+literal run of n bytes, 0xC0 is the next argument with default formatting, 0x00 ends the template; anything else
+(width / precision / {:?} options) is reported as unsupported, never guessed.
+"""
+import re, z3
 from mirsym import *
 from . import model, ITER_NEXT
+from .core import some, none, ok, err, deref
+from .strings import StrS, gs, sref
+
+FMT = r"(?:std::fmt::|core::fmt::)?Formatter(?:::)?<'_>"
+def new_formatter(): return VObj('fmt', out=[])
+def getf(I, v):
+    v = deref(I, v)
+    if isinstance(v, VObj) and v.kind == 'fmt': return v
+    raise Unsupported(f'not a formatter: {v!r}')
+def okunit(): return ok(VUnit())
+
+def emit_str(f, s):
+    if isinstance(s, StrS):
+        for c, w in s.chars[s.lo:s.hi]: f.out.append(('ch', c.v))
+    else: f.out.append(('str', s))
+
+@model(r"^<" + FMT + r" as (?:std::fmt::|core::fmt::)?Write>::write_char$|^" + FMT + r"::write_char$")
+def fmt_write_char(I, m, a, dt): getf(I, a[0]).out.append(('ch', a[1].v)); return okunit()
+@model(r"^<" + FMT + r" as (?:std::fmt::|core::fmt::)?Write>::write_str$|^" + FMT + r"::write_str$")
+def fmt_write_str(I, m, a, dt): emit_str(getf(I, a[0]), gs(I, a[1])); return okunit()
+
+@model(r"^(?:core::fmt::rt::|std::fmt::rt::)?Argument::<'_>::new_(display|debug)::<(.*)>$")
+def arg_new(I, m, a, dt): return VObj('fmtarg', how=m.group(1), ty=m.group(2), ref=a[0])
+@model(r"^(?:std::fmt::|core::fmt::)?Arguments::<'_>::from_str$")
+def args_from_str(I, m, a, dt): return VObj('fmtargs', lit=gs(I, a[0]), tmpl=None, args=[])
+@model(r"^(?:std::fmt::|core::fmt::)?Arguments::<'_>::new::<\d+, \d+>$")
+def args_new(I, m, a, dt):
+    t = deref(I, a[0]); args = deref(I, a[1])
+    if not isinstance(t, VTuple): raise Unsupported('format template is not a byte string')
+    bs = [x.v for x in t.items]
+    return VObj('fmtargs', lit=None, tmpl=bs, args=list(args.items))
+
+def display_value(I, f, ty, ref, fref):
+    ty = ty.strip()
+    v = deref(I, ref)
+    while ty.startswith('&'): ty = ty[1:].strip(); v = deref(I, v)
+    if ty in INT_RANGE and ty != 'char': f.out.append(('int', v.v, ty)); return
+    if ty == 'char': f.out.append(('ch', v.v)); return
+    if ty in ('str', 'std::string::String', 'String', 'Box<str>'): emit_str(f, gs(I, v)); return
+    if re.match(r'^(?:num::|num_bigint::)?(?:bigint::)?BigInt$', ty):
+        from .num import big_arg
+        f.out.append(('int', big_arg(I, v), 'BigInt')); return
+    r = I.call(f'<{ty} as std::fmt::Display>::fmt', [VRef(Cell(v), []) if not isinstance(ref, VRef) else ref, fref])
+    if isinstance(r, VEnum) and r.variant == 'Err': raise PathEnd('fmt-error', ty)
+
+@model(r"^" + FMT + r"::write_fmt$|^<" + FMT + r" as (?:std::fmt::|core::fmt::)?Write>::write_fmt$")
+def fmt_write_fmt(I, m, a, dt):
+    f = getf(I, a[0]); ar = a[1]
+    if ar.lit is not None: emit_str(f, ar.lit); return okunit()
+    bs = ar.tmpl; i = 0; k = 0
+    while i < len(bs):
+        b = bs[i]; i += 1
+        if b == 0: break
+        if b < 0x80:
+            f.out.append(('str', bytes(bs[i:i + b]).decode('utf-8', 'replace'))); i += b
+        elif b == 0xC0:
+            g = ar.args[k]; k += 1
+            if g.how != 'display': raise Unsupported('{:?} formatting')
+            display_value(I, f, g.ty, g.ref, a[0])
+        else: raise Unsupported(f'format template opcode {b:#x}')
+    return okunit()
+
+@model(r"^<(char|u8|u16|u32|u64|usize|i8|i16|i32|i64|isize|str|&str|(?:std::string::)?String|(?:num::|num_bigint::)?(?:bigint::)?BigInt) as (?:std::fmt::|core::fmt::)?Display>::fmt$")
+def prim_display(I, m, a, dt):
+    display_value(I, getf(I, a[1]), m.group(1), a[0], a[1]); return okunit()
+@model(r"^<&(.*) as (?:std::fmt::|core::fmt::)?Display>::fmt$")
+def ref_display(I, m, a, dt):
+    display_value(I, getf(I, a[1]), '&' + m.group(1), a[0], a[1]); return okunit()
+
+# ---- ToString of integers with symbolic value: a digit vector of forked length tied to the value by a linear constraint
+def digits_of(I, x, what='integer', maxd=None):
+    """x: non-negative Int expr -> list of digit Int exprs (most significant first)"""
+    if is_conc(x): return [int(ch) for ch in str(x)]
+    maxd = maxd or I.params.get('digits_bound', 24)
+    for n in range(1, maxd + 1):
+        lo = 0 if n == 1 else 10 ** (n - 1)
+        if I.branch(z3.And(x >= lo, x < 10 ** n)):
+            ds = [I.fresh_int('dg') for _ in range(n)]
+            I.assume(z3.And([z3.And(d >= 0, d <= 9) for d in ds] + [x == z3.Sum([ds[i] * 10 ** (n - 1 - i) for i in range(n)])]))
+            return ds
+    raise PathEnd('bound', f'{what} has more than {maxd} digits')
+@model(r"^<((?:num::|num_bigint::)?(?:bigint::)?BigInt|u8|u16|u32|u64|usize|i8|i16|i32|i64|isize) as (?:std::string::)?ToString>::to_string$")
+def int_to_string(I, m, a, dt):
+    from .num import big_arg
+    x = big_arg(I, a[0])
+    neg = False
+    if not (m.group(1).startswith('u')):
+        neg = I.branch(x < 0)
+        if neg: x = -x
+    ds = digits_of(I, x)
+    chars = ([(VInt(45, 'char'), 1)] if neg else []) + [(VInt(d + 48 if is_conc(d) else d + 48, 'char'), 1) for d in ds]
+    return StrS(chars)
